@@ -111,6 +111,7 @@ type Contract struct {
 }
 
 type LoopSpec struct {
+	Lemma []*Clause // proved (then assumed) at every back edge before the invariants
 	Inv  []*Clause
 	Dec  []*Clause
 	Mods []string
@@ -123,6 +124,7 @@ type SpecFunc struct {
 	Body    *E
 	Text    string
 	Uninter bool
+	Opaque  bool
 	Rec     bool
 	Pkg     string
 }
@@ -460,7 +462,7 @@ var clauseKw = map[string]bool{"props": true, "arith": true, "requires": true, "
 	"loop": true, "assume": true, "pure": true, "opt": true, "preserves": true}
 
 var reFuncHdr = regexp.MustCompile(`^(trusted\s+)?func\s+(\S.*)$`)
-var reSpecHdr = regexp.MustCompile(`^(uninterpreted\s+)?spec\s+func\s+(\w+)\s*\(([^)]*)\)\s*(\S+)?\s*(=\s*(.*))?$`)
+var reSpecHdr = regexp.MustCompile(`^(uninterpreted\s+|opaque\s+)?spec\s+func\s+(\w+)\s*\(([^)]*)\)\s*(\S+)?\s*(=\s*(.*))?$`)
 
 func LoadContracts(files []string) (*Contracts, error) {
 	cs := &Contracts{Funcs: map[string]*Contract{}, Specs: map[string]*SpecFunc{}}
@@ -510,7 +512,7 @@ func (cs *Contracts) loadFile(file string) error {
 		if i := strings.IndexAny(first, " \t:"); i >= 0 {
 			first = first[:i]
 		}
-		isHdr := first == "func" || first == "trusted" || first == "spec" || first == "uninterpreted" || first == "axiom" || first == "lemma"
+		isHdr := first == "func" || first == "trusted" || first == "spec" || first == "uninterpreted" || first == "opaque" || first == "axiom" || first == "lemma"
 		if isHdr || clauseKw[first] || len(joined) == 0 {
 			joined = append(joined, l)
 		} else {
@@ -522,7 +524,7 @@ func (cs *Contracts) loadFile(file string) error {
 		where := fmt.Sprintf("%s:%d", file, l.ln)
 		fail := func(err error) error { return fmt.Errorf("%s: %v", where, err) }
 		if m := reSpecHdr.FindStringSubmatch(l.s); m != nil {
-			sf := &SpecFunc{Name: m[2], Uninter: m[1] != "", Ret: m[4], Pkg: pkg}
+			sf := &SpecFunc{Name: m[2], Uninter: strings.HasPrefix(m[1], "uninterpreted"), Opaque: strings.HasPrefix(m[1], "opaque"), Ret: m[4], Pkg: pkg}
 			if sf.Ret == "" || sf.Ret == "=" {
 				sf.Ret = "bool"
 			}
@@ -684,6 +686,12 @@ func (cs *Contracts) loadFile(file string) error {
 					return err
 				}
 				ls.Inv = append(ls.Inv, c)
+			case "lemma":
+				c, err := mk("lemma", rest2, k)
+				if err != nil {
+					return err
+				}
+				ls.Lemma = append(ls.Lemma, c)
 			case "decreases":
 				c, err := mk("decreases", rest2, k)
 				if err != nil {
